@@ -124,6 +124,45 @@ P_C03_Desc(lines, toks, doc, ix) == \A n \in SeqToSet(ix.titled) : n.desc = Expe
 (* "Nothing that is not in the source appears in the AST": every line the AST mentions exists. *)
 P_C03_Within(lines, doc, ix) == \A ln \in SeqToSet(Walk(doc)) \cup SeqToSet(LinesOf(ix.tags)) \cup SeqToSet(LinesOf(doc.comments)) : ln \in 1..Len(lines)
 
+\* ------------------------------------------------------------------------------------------- C02
+(* "the nesting ... reported to the AST builder is a derivation of that grammar": the flat word of builder calls
+   S:rule / B:token / E:rule of an accepted document belongs to the language the grammar assigns to GherkinDocument when
+   every '!' rule is bracketed by S/E, rules without '!' are inlined, and comment / blank tokens may additionally stand
+   anywhere.  Decided by brute force on the word (sets of reachable positions), not by the parser table. *)
+EventWord(toks, events) == <<<<"S", "GherkinDocument">>>> \o
+   FlattenSeq([k \in 1..Len(events) |-> [m \in 1..Len(events[k]) |-> IF events[k][m][1] = "B" THEN <<"B", "#" \o toks[k].type>> ELSE events[k][m]]])
+   \o <<<<"E", "GherkinDocument">>>>
+IgnoredB == {<<"B", "#Comment">>, <<"B", "#Empty">>}
+RECURSIVE SkipIgn(_, _)
+SkipIgn(w, j) == {j} \cup (IF j <= Len(w) /\ w[j] \in IgnoredB THEN SkipIgn(w, j + 1) ELSE {})
+RECURSIVE EndsSym(_, _, _), EndsEls(_, _, _, _, _), EndsAlt(_, _, _, _), EndsMany(_, _, _)
+\* positions after one instance of symbol sym starting at position j of word w
+EndsSym(w, sym, j) ==
+   IF j > Len(w) THEN {}
+   ELSE IF IsTok(sym) THEN (IF w[j] = <<"B", sym>> THEN {j + 1} ELSE {})
+   ELSE IF Rules[sym].ast THEN
+        (IF w[j] # <<"S", sym>> THEN {}
+         ELSE {e + 1 : e \in {x \in (IF Rules[sym].kind = "seq" THEN EndsEls(w, Rules[sym].els, 1, j + 1, TRUE) ELSE EndsAlt(w, Rules[sym].els, 1, j + 1)) :
+                                   x <= Len(w) /\ w[x] = <<"E", sym>>}})
+   ELSE IF Rules[sym].kind = "seq" THEN EndsEls(w, Rules[sym].els, 1, j, TRUE) ELSE EndsAlt(w, Rules[sym].els, 1, j)
+EndsAlt(w, els, i, j) == IF i > Len(els) THEN {} ELSE EndsSym(w, els[i].s, j) \cup EndsAlt(w, els, i + 1, j)
+\* one or more instances of sym from j (each instance consumes at least one position)
+EndsMany(w, sym, j) == LET one == EndsSym(w, sym, j) IN one \cup UNION {EndsMany(w, sym, e2) : e2 \in UNION {SkipIgn(w, e) : e \in {x \in one : x > j}}}
+\* positions after matching els[i..] from j; ignored tokens may be skipped at any point
+EndsEls(w, els, i, j, skipOk) ==
+   LET skip == IF skipOk /\ j <= Len(w) /\ w[j] \in IgnoredB THEN EndsEls(w, els, i, j + 1, TRUE) ELSE {} IN
+   skip \cup
+   (IF i > Len(els) THEN {j}
+    ELSE LET e == els[i]
+             once == EndsSym(w, e.s, j)
+             many == IF Rep(e.m) THEN EndsMany(w, e.s, j) ELSE once
+             after == UNION {EndsEls(w, els, i + 1, x, TRUE) : x \in many}
+         IN after \cup (IF Opt(e.m) THEN EndsEls(w, els, i + 1, j, FALSE) ELSE {}))
+P_C02_Derivation(toks, events) == LET w == EventWord(toks, events) IN (Len(w) + 1) \in EndsSym(w, "GherkinDocument", 1)
+(* "with each tag line attached to the Examples, Scenario or Rule that follows it": no other element stands between a tag
+   and its owner *)
+P_C02_TagOwner(doc, ix) == \A o \in SeqToSet(ix.owners) : \A j \in 1..Len(o.tags) : ~\E ln \in SeqToSet(Walk(doc)) : o.tags[j].line < ln /\ ln < o.line
+
 \* ------------------------------------------------------------------------------------------- C04
 (* "Reading the source at that position gives back the element's keyword, tag name, or raw cell text"; the column is that
    of the first non-blank character of the line for keyword lines, steps, rows and delimiters. *)
